@@ -28,7 +28,7 @@ THOROUGH_RUNS = 150_000
 QUICK_BUDGET_S = 110
 THOROUGH_BUDGET_S = 1500
 RULE = (
-    "seeded programs (3-6 methods, 1-4 calls, <=4 steps per stream) each run on 2 pipe-family legs and 2-3 HTTP "
+    "seeded programs (3-6 methods, 1-4 calls, <=4 steps per stream) each run on 2 pipe-family legs, optionally a shm-pipe leg, and 2-3 HTTP "
     "configurations; non-trivial = at least one stream call or error outcome; distinct = distinct (program shape, leg set)"
 )
 COMPONENTS = {
@@ -36,7 +36,7 @@ COMPONENTS = {
              "_app_unary/_app_stream", "_state_token + crypto AEAD", "_HttpProxy/HttpStreamSession", "vgi_rpc.external (externalize/resolve)",
              "_CompressionMiddleware (zstd, gzip)"],
     "stub": ["OS pipes/sockets -> dst.chan", "HTTP server -> direct WSGI call (falcon.testing)", "external storage -> in-memory; fetch_url stub",
-             "tenacity -> /verif/stubs", "shm-pipe leg is covered by C29, real subprocess spawn is outside the simulator"],
+             "tenacity -> /verif/stubs", "SharedMemory -> in-memory registry for the shm-pipe leg", "real subprocess spawn is outside the simulator"],
 }
 ASSUMPTIONS = ["a transport may deliver a log earlier than the model (HTTP reads a whole turn eagerly) but never later than the data it precedes",
                "logs emitted inside a stream init / process step that then fails may be dropped (all transports must agree)"]
@@ -119,6 +119,12 @@ def run(ctx: RunCtx) -> None:
         results.append(("pipe", k1, legs.run_pipe_leg(ctx, svc, calls, k1, buggify=False, label="p1")))
         k2 = s1.KINDS[ch.choose(len(s1.KINDS), "leg.pipe2")]
         results.append(("pipe", k2 + "+chunk", legs.run_pipe_leg(ctx, svc, calls, k2, buggify=True, label="p2")))
+        if ch.choose(2, "leg.shm"):
+            r = legs.run_shm_leg(ctx, svc, calls, seg_extra=[200_000, 4096, 20_000][ch.choose(3, "leg.shm.seg")],
+                                 shm_min=[0, 512][ch.choose(2, "leg.shm.min")], label="shm", buggify=bool(ch.choose(2, "leg.shm.bug")))
+            results.append(("pipe", r.name, r))
+            if r.extra and r.extra.get("via_shm"):
+                ch.probe("stream_batch_via_shm")
         nh = 2 + ch.choose(2, "leg.nhttp")
         for j in range(nh):
             cfg = legs.draw_http_cfg(ch, f"h{j}")
